@@ -318,6 +318,7 @@ func Run(ctx *common.Ctx) int {
 	}
 	// ---------- end-to-end with the built binaries ----------
 	e2e := 0
+	sizeRuns := 0
 	gen, err1 := e1.BuildPlain(ctx, "rdgen.bin", "github.com/Trisia/randomness/tools/rdgen", false)
 	det, err2 := e1.BuildPlain(ctx, "rddetector.bin", "github.com/Trisia/randomness/tools/rddetector", false)
 	if err1 != nil || err2 != nil {
@@ -419,7 +420,47 @@ func Run(ctx *common.Ctx) int {
 			}
 			_ = os.RemoveAll(dir)
 		}
+		// size sweep: "other multiples of 8" - every byte count 1..64 and the byte counts around every power of two up to 4 MiB
+		// (a block-wise writer has its shortcuts at multiples of its block size); s=1 below 16 bytes, where two random samples may coincide
+		var byteCounts []int
+		for b := 1; b <= 64; b++ {
+			byteCounts = append(byteCounts, b)
+		}
+		for e := 7; e <= 22; e++ {
+			byteCounts = append(byteCounts, 1<<e-1, 1<<e, 1<<e+1, 3<<(e-1))
+		}
+		if !quick {
+			for k := 2; k <= 40; k++ {
+				byteCounts = append(byteCounts, k*4096, k*65536, k*65536+1, k*1000)
+			}
+		}
+		for si, bc := range byteCounts {
+			if ctx.Expired() {
+				break
+			}
+			sN := 2
+			if bc < 16 {
+				sN = 1
+			}
+			dir := filepath.Join(ctx.Work, fmt.Sprintf("sz%d", si))
+			_ = os.MkdirAll(dir, 0o755)
+			args := []string{"-s", fmt.Sprint(sN), "-n", fmt.Sprint(8 * bc), "-o", "out"}
+			cmd := exec.Command(gen, args...)
+			cmd.Dir = dir
+			var ob bytes.Buffer
+			cmd.Stdout, cmd.Stderr = io.Discard, &ob
+			err := runTimeout(cmd, 5*time.Minute)
+			e2e++
+			sizeRuns++
+			if err != nil {
+				ctx.Report("e2e/rdgen/size-sweep/exit", fmt.Sprintf("rdgen %v failed: %v %s", args, err, tailStr(ob.String(), 300)), map[string]interface{}{"args": args})
+			} else if msg := judgeDisk(dir, "out", sN, 8*bc); msg != "" {
+				ctx.Report("e2e/rdgen/size-sweep/"+classify(msg), fmt.Sprintf("rdgen %v: %s", args, msg), map[string]interface{}{"args": args})
+			}
+			_ = os.RemoveAll(dir)
+		}
 	}
+	samples = append(samples, map[string]interface{}{"family": "size-sweep", "runs": sizeRuns, "configs": "rdgen -s 2 (1 below 16 bytes) -n 8*b for every b in 1..64 and b in {2^e-1, 2^e, 2^e+1, 3*2^(e-1)} for e=7..22 (thorough: also k*4096, k*65536, k*65536+1, k*1000 for k=2..40): exactly s files of b bytes, pairwise different"})
 	samples = append(samples, map[string]interface{}{"family": "end-to-end", "runs": e2e, "configs": "s in {1,5,7,300(,33)} x n in {20000, 10^6, 4096} x output forms (default, relative, nested, absolute, names ending in .bin/.dat, names with printf verbs / blanks / non-ASCII / trailing separator / dot segments, a working directory with such a name, the working directory itself (.), hidden directories (.samples, a/.b/c), a directory holding the leftovers of an interrupted run of the same sample size with a missing, an empty and a short sample inside the finished prefix), then rddetector -i on the result"})
 	sigs := make([]string, 0)
 	for k := range m.Signatures {
